@@ -221,6 +221,21 @@ def check_once(ctx, r):
                         ctx.bad("C07.1", f, n.ast, "fn is called and the checking implementation (which calls fn again) is invoked on the same path",
                                 path=fl.witness(n, stt))
                     continue
+                if after == 0:
+                    # the result comes from a call the rule cannot see into (a method of a new object, a callable held in a variable): whether
+                    # that runs fn is unknown -- no witness of "not called"
+                    vv = v
+                    if isinstance(vv, ast.Name):
+                        dd = c05._assignments_to(f, vv.id)
+                        vv = dd[0][1] if len(dd) == 1 and dd[0][2] is None else vv
+                    if isinstance(vv, ast.Call):
+                        tt = m.resolve_call(f, vv)
+                        try:
+                            from ..inventory import FUNCTIONS as _PINNED
+                        except ImportError:
+                            _PINNED = set()
+                        if tt.kind in ("callout", "method", "unknown") or (tt.kind == "func" and tt.target.qualname not in _PINNED) or tt.kind == "class":
+                            raise AnalysisError(f"C07.1: {f.qualname} returns the result of `{short(vv, 60)}`, which the rule cannot identify as the checking implementation or as fn")
                 if after != 1:
                     ok = False
                     ctx.bad("C07.1", f, n.ast, f"a normal return is reached with the wrapped function called {after} times (must be exactly once)",
